@@ -120,6 +120,12 @@ def run(ctx):
             if kind == "affine":
                 T = AffineTransform(xp=xp, dtype=dt)
                 data = xp.asarray(x if n > 1 else np.vstack([x, x + 0.5 * w]), dtype=dt)
+                if rep % 2 == 1:
+                    # the same object was fitted before on data of another spread: what follows is about the LAST fit
+                    prev = np.asarray(nsutil.to_list(data), float) * 7.5 + 3.0
+                    T.fit(xp.asarray(prev, dtype=dt))
+                    T.forward(xp.asarray(prev, dtype=dt))
+                    case = dict(case, fitted_before_on_data_scaled_by=7.5)
                 yfit = T.fit(data)
                 y, lj = T.forward(data)
                 if not np.array_equal(np.asarray(nsutil.to_list(yfit), float), np.asarray(nsutil.to_list(y), float)):
